@@ -85,8 +85,12 @@ def finalLabel (files : List (List Line)) (labels : List (Key × Str)) (k : Key)
 /-- every value in the file is an unambiguous template (`Template.WF`: its rendering parses back to it) -/
 def WFLines (ls : List Line) : Prop := ∀ k v, Line.assign k v ∈ ls → CV.Template.WF v = true
 
-/-- every regular file of the file system is well-formed in that sense -/
-def WFFS (fs : FS) : Prop := ∀ p ls, fs p = some (.file ls) → WFLines ls
+/-- no `env_file` format is registered (the state of the library; `dotenv.RegisterFormat` is for embedding programs) -/
+def DefaultFormats (fs : FS) : Prop := ∀ n, fs.formats n = none
+
+/-- the outside world the layering specification speaks about: every regular file is well-formed in that sense and
+    files are read by the dotenv parser (no custom format registered) -/
+def WFFS (fs : FS) : Prop := (∀ p ls, fs p = some (.file ls) → WFLines ls) ∧ DefaultFormats fs
 
 /-- no file exists at path `p`: the path is absent, or one of its parents is a regular file -/
 def Missing (fs : FS) (p : Str) : Prop := fs p = none ∨ fs p = some .notdir
